@@ -236,6 +236,12 @@ def dnf_keeps_clauses(ctx):
         bad += fb.calls(*REMOVALS)
     ctx.check(not bad, key, 'no clause removal', 'to_dnf removes clauses through `%s` (line %d): the disjunctive normal form may no longer be '
               'equivalent to the policy' % (bad[0].name if bad else '', bad[0].ln if bad else 0), 'no dedup / retain / filter / truncate', F.fn(key).where())
+    # ... and the attributes of a clause never go through a map or a set: a keyed / deduplicating collection merges attributes
+    # (two attributes of one dimension in a conjunction make an unsatisfiable clause, not a clause with one of them)
+    keyed = [c for fb in fam for c in fb.calls() if re.search(r'\b(BTreeMap|HashMap|BTreeSet|HashSet|IndexMap)\b', c.full + ' ' + (c.self_ty or ''))]
+    ctx.check(not keyed, key, 'clauses are plain sequences', 'to_dnf puts the attributes of a clause into a map / set (%s, line %d): '
+              'attributes that share a key are merged, and the clause is satisfied by keys the policy excludes'
+              % (keyed[0].name if keyed else '', keyed[0].ln if keyed else 0), 'Vec only', F.fn(key).where())
     rec = [c for fb in fam for c in fb.calls(r'AccessPolicy::to_dnf$')]
     ctx.check(len(rec) >= 4, key, 'recurses on both operands', 'to_dnf recurses %d times; both operands of a conjunction and of a disjunction '
               'must be converted' % len(rec), '%d recursive calls' % len(rec), F.fn(key).where())
